@@ -615,7 +615,26 @@ def r17_9(chk):
     chk.floor("R17.9", 3, "raw bulk inserts of the annotation dbs")
 
 
+def r17_10(chk):
+    chk.rule("R17.10", "union() returns a NEW db and leaves both operands alone: the result is constructed empty (cls()) and filled with update(); it is never constructed on the receiver (`cls(db=self)` / `db=self.db`), because _setup_db BINDS the connection of a db of the same class instead of copying it -- the records of the other operand, and every later edit of the union, would land in the receiver")
+    m = chk.repo.module(DB)
+    fn = m.func("SqliteAnnotationDbMixin.union")
+    setup = m.func("SqliteAnnotationDbMixin._setup_db")
+    binds = any(isinstance(st, ast.Assign) and norm(st.targets[0]) == "self._db" and norm(st.value) in ("db.db", "db._db") for st in ast.walk(setup))
+    ctor = [c for c in walk_no_nested(fn) if isinstance(c, ast.Call) and norm(c.func) in ("cls", "self.__class__", "type(self)")]
+    if not ctor:
+        raise AnalysisError("SqliteAnnotationDbMixin.union: construction of the result not found")
+    for c in ctor:
+        shared = [kw for kw in c.keywords if kw.arg in ("db", "source") and "self" in {x.id for x in ast.walk(kw.value) if isinstance(x, ast.Name)}] + [a for a in c.args if "self" in {x.id for x in ast.walk(a) if isinstance(x, ast.Name)}]
+        chk.decide(not (shared and binds), "R17.10", key(m, "SqliteAnnotationDbMixin.union", "result not built on the receiver's connection"), m.loc(c), f"`{norm(c)}`", f"`{norm(c)}` hands the receiver to the constructor, and _setup_db binds (does not copy) the connection of a db of the same class: a.union(b) inserts b's records into a")
+    upd = [c for c in walk_no_nested(fn) if isinstance(c, ast.Call) and isinstance(c.func, ast.Attribute) and c.func.attr == "update" and c.args and norm(c.args[0]) == "self"]
+    built_from_self = any(kw.arg == "db" for c in ctor for kw in c.keywords)
+    chk.decide(bool(upd) or built_from_self, "R17.10", key(m, "SqliteAnnotationDbMixin.union", "receiver's records copied in"), m.loc(fn), "db.update(self)", "the union no longer receives the receiver's records")
+    chk.floor("R17.10", 2, "construction and fill of the union")
+
+
 def run(chk):
+    r17_10(chk)
     r17_9(chk)
     r17_8(chk)
     r17_7(chk)
